@@ -644,4 +644,32 @@ theorem float_reg_roundtrip {F : Type} [FloatOps F] (port : Port) (hp : port.has
     simp only [afterRead, afterWrite]
     exact writeRange_outside d.mem address _ y (by rw [hlen]; exact hy)
 
+/-- **failed_read_serves_nothing_stale**: when the device fails one read (fault script) and
+answers the next one, `value()` (every kind: `with_cache_or_read` with decoder `f`) first
+returns the device error having touched neither memory nor log, and the re-read is exactly
+one device read of `[address, address+length)` whose result is the decoder applied to the
+bytes the device holds — nothing from the failed attempt is served.  (Caching off; with the
+default cache the same is checked on the implementation by the harness' cached pass.) -/
+theorem failed_read_serves_nothing_stale {α : Type} (port : Port) (hp : port.hasChunkId = false)
+    (address length : Int) (hlen : asUsize length < 2 ^ 63) (d : Dev) (f : Bytes → R α)
+    (h1 : d.refuse d.attempts = true) (h2 : d.refuse (d.attempts + 1) = false) :
+    ∃ d1 d2, withRead port address length d f = (.err .device, d1) ∧ Untouched d d1 ∧
+      withRead port address length d1 f = (f (d.mem.readRange address (asUsize length)), d2) ∧
+      OneAccess d1 d2 ⟨.read, address, asUsize length, d.mem.readRange address (asUsize length)⟩ d.mem := by
+  refine ⟨afterRefusal d, afterRead (afterRefusal d) address (asUsize length), ?_, ⟨rfl, rfl⟩, ?_,
+    ⟨rfl, rfl, rfl, rfl⟩⟩
+  · rcases withRead_cases port address length d f with ⟨_, h⟩ | ⟨_, h⟩ | ⟨h, _⟩ | ⟨_, _, _, h⟩
+    · exact absurd hlen h
+    · rw [hp] at h; cases h
+    · exact h
+    · rw [h1] at h; cases h
+  · rcases withRead_cases port address length (afterRefusal d) f with ⟨_, h⟩ | ⟨_, h⟩ | ⟨_, h⟩ | ⟨h, _⟩
+    · exact absurd hlen h
+    · rw [hp] at h; cases h
+    · simp only [afterRefusal] at h; rw [h2] at h; cases h
+    · exact h
+
+example : ∃ d : Dev, d.refuse d.attempts = true ∧ d.refuse (d.attempts + 1) = false :=
+  ⟨⟨fun _ => 0, [], fun n => n == 0, 0⟩, rfl, rfl⟩
+
 end CamVerif.C01
